@@ -6,7 +6,9 @@ PID = 'C19'
 
 
 def items():
-    # the per-call clauses within the verifier's reach: selection through the alias layers (layers and key table abstract maps)
+    # the per-call clauses within the verifier's reach: selection through the alias layers, the report, and the index WRITERS (_add_alias over
+    # abstract layers with updates and a frame for an arbitrary other identifier; _sort_alias; _add_key; unload on a concrete shape with symbolic
+    # links; load; __contains__). What stays bounded is the invariant that ties them together over whole histories.
     return kr.scenarios()
 
 
@@ -14,8 +16,8 @@ def run(tier='quick', seed=0, only=None):
     its = [i for i in items() if not only or only in i.cid]
     return runner.run_property(PID, its, bounded=[] if only else [keyring.component, keyring_step.component, keyring_subkeys.component], tier=tier, seed=seed, level='exploration',
                                trusted_base=['the class invariant I(keyring) stated in bounded/keyring.py and bounded/keyring_step.py', 'CPython'],
-                               assumptions=['bounded stand-ins only for the index itself: the layered alias index (deque of dicts, re-sorted per alias) needs '
-                                            'quantified array-of-map invariants that the VC generator does not offer',
+                               assumptions=['the step functions of the index are under contract one call at a time; that their contracts compose to the class invariant over '
+                                            'whole histories (a quantified array-of-map invariant) is not proved: bounded stand-ins',
                                             'keyring-histories, keyring-histories-with-subkey-objects: nothing is claimed beyond the enumerated histories',
                                             'keyring-invariant-is-inductive: the invariant is checked to be preserved by load/unload from EVERY state of a '
                                             'bounded shape (not only reachable ones), so history length is unbounded there but the shape (universe of 6 key '
